@@ -1,1 +1,1031 @@
-fn main() {}
+//! Conformance driver for the TLS acceptor services of actix-tls (C18).
+//!
+//! `vtls accept --schedules F --trace T [--random N --seed S --acc rustls|openssl|both]`
+//!
+//! One run = one fresh OS thread (the handshake counter of actix-tls is a lazily created
+//! thread-local whose capacity is read at first use) with a current-thread Tokio runtime whose clock
+//! is paused.  The real `rustls_0_23::Acceptor` / `openssl::Acceptor` services (built through
+//! `ServiceFactory::new_service`) are called on one end of a `tokio::io::duplex`, wrapped in
+//! `GatedIo` (an `ActixStream`).  The other end belongs to a scripted client: a real rustls /
+//! OpenSSL client handshake, raw garbage, or nothing.  The *gate* decides how many of the client's
+//! bytes the server may read and what happens at the scripted instant (open / garbage / EOF).
+//! All futures are polled by hand, so the schedule decides exactly when a call future is polled and
+//! virtual time moves only in `advance` steps.  Every step is recorded with *observed* values.
+
+use std::{
+    cell::{Cell, RefCell},
+    collections::BTreeMap,
+    future::Future,
+    io,
+    pin::Pin,
+    rc::Rc,
+    sync::{
+        atomic::{AtomicBool, Ordering},
+        Arc,
+    },
+    task::{Context, Poll, Wake, Waker},
+    time::Duration,
+};
+
+use actix_rt::net::{ActixStream, Ready};
+use actix_service::{Service, ServiceFactory};
+use actix_tls::accept::{self, TlsError};
+use rustls_pki_types_1::{CertificateDer, PrivateKeyDer, PrivatePkcs8KeyDer, ServerName};
+use tls_openssl::{
+    pkey::PKey,
+    ssl::{SslAcceptor, SslConnector, SslMethod},
+    x509::X509,
+};
+use tokio::io::{AsyncRead, AsyncReadExt, AsyncWrite, AsyncWriteExt, DuplexStream, ReadBuf};
+use tokio_rustls_026::rustls::{ClientConfig, RootCertStore, ServerConfig};
+use vcore::{arg, catch, geti, gets, json, quiet_panics, read_ndjson, Trace, Value, Wakers};
+
+// ------------------------------------------------------------------------------------------
+// small helpers
+// ------------------------------------------------------------------------------------------
+#[derive(Clone)]
+struct Rng(u64);
+impl Rng {
+    fn new(seed: u64) -> Self {
+        Rng(seed.wrapping_mul(0x9E3779B97F4A7C15) | 1)
+    }
+    fn next(&mut self) -> u64 {
+        self.0 ^= self.0 << 13;
+        self.0 ^= self.0 >> 7;
+        self.0 ^= self.0 << 17;
+        self.0
+    }
+    fn below(&mut self, n: usize) -> usize {
+        ((self.next() >> 11) % n as u64) as usize
+    }
+    fn bytes(&mut self, n: usize) -> Vec<u8> {
+        let mut v = Vec::with_capacity(n + 8);
+        while v.len() < n {
+            v.extend_from_slice(&self.next().to_le_bytes());
+        }
+        v.truncate(n);
+        v
+    }
+}
+
+struct Flag(AtomicBool);
+impl Wake for Flag {
+    fn wake(self: Arc<Self>) {
+        self.0.store(true, Ordering::SeqCst);
+    }
+    fn wake_by_ref(self: &Arc<Self>) {
+        self.0.store(true, Ordering::SeqCst);
+    }
+}
+fn new_flag(set: bool) -> Arc<Flag> {
+    Arc::new(Flag(AtomicBool::new(set)))
+}
+fn take_flag(f: &Arc<Flag>) -> bool {
+    f.0.swap(false, Ordering::SeqCst)
+}
+
+/// Drives a future whose I/O is entirely in memory; `Err` if it does not finish.
+fn drive<F: Future>(fut: F, max_polls: usize) -> Result<F::Output, String> {
+    let flag = new_flag(false);
+    let waker = Waker::from(flag);
+    let mut cx = Context::from_waker(&waker);
+    let mut fut = std::pin::pin!(fut);
+    for _ in 0..max_polls {
+        if let Poll::Ready(v) = fut.as_mut().poll(&mut cx) {
+            return Ok(v);
+        }
+    }
+    Err("stuck (future still pending)".into())
+}
+
+// ------------------------------------------------------------------------------------------
+// the transport: server end behind a gate, client end counting what it wrote
+// ------------------------------------------------------------------------------------------
+struct Gate {
+    quota: u64,    // client bytes the server may read
+    consumed: u64, // client bytes the server has read
+    inject: Vec<u8>,
+    inject_pos: usize,
+    eof: bool,
+    waker: Option<Waker>,
+}
+impl Gate {
+    fn changed(&mut self) {
+        if let Some(w) = self.waker.take() {
+            w.wake();
+        }
+    }
+}
+
+struct GatedIo {
+    inner: DuplexStream,
+    gate: Rc<RefCell<Gate>>,
+}
+
+impl AsyncRead for GatedIo {
+    fn poll_read(
+        self: Pin<&mut Self>,
+        cx: &mut Context<'_>,
+        buf: &mut ReadBuf<'_>,
+    ) -> Poll<io::Result<()>> {
+        let this = self.get_mut();
+        let mut g = this.gate.borrow_mut();
+        if buf.remaining() == 0 {
+            return Poll::Ready(Ok(()));
+        }
+        if g.consumed < g.quota {
+            let room = (g.quota - g.consumed).min(buf.remaining() as u64) as usize;
+            let mut tmp = vec![0u8; room];
+            let mut rb = ReadBuf::new(&mut tmp);
+            return match Pin::new(&mut this.inner).poll_read(cx, &mut rb) {
+                Poll::Ready(Ok(())) => {
+                    let n = rb.filled().len();
+                    buf.put_slice(rb.filled());
+                    g.consumed += n as u64;
+                    Poll::Ready(Ok(()))
+                }
+                Poll::Ready(Err(e)) => Poll::Ready(Err(e)),
+                Poll::Pending => {
+                    g.waker = Some(cx.waker().clone());
+                    Poll::Pending
+                }
+            };
+        }
+        if g.inject_pos < g.inject.len() {
+            let n = (g.inject.len() - g.inject_pos).min(buf.remaining());
+            let from = g.inject_pos;
+            buf.put_slice(&g.inject[from..from + n]);
+            g.inject_pos += n;
+            return Poll::Ready(Ok(()));
+        }
+        if g.eof {
+            return Poll::Ready(Ok(()));
+        }
+        g.waker = Some(cx.waker().clone());
+        Poll::Pending
+    }
+}
+
+impl AsyncWrite for GatedIo {
+    fn poll_write(
+        self: Pin<&mut Self>,
+        cx: &mut Context<'_>,
+        buf: &[u8],
+    ) -> Poll<io::Result<usize>> {
+        Pin::new(&mut self.get_mut().inner).poll_write(cx, buf)
+    }
+    fn poll_flush(self: Pin<&mut Self>, cx: &mut Context<'_>) -> Poll<io::Result<()>> {
+        Pin::new(&mut self.get_mut().inner).poll_flush(cx)
+    }
+    fn poll_shutdown(self: Pin<&mut Self>, cx: &mut Context<'_>) -> Poll<io::Result<()>> {
+        Pin::new(&mut self.get_mut().inner).poll_shutdown(cx)
+    }
+}
+
+impl ActixStream for GatedIo {
+    fn poll_read_ready(&self, _: &mut Context<'_>) -> Poll<io::Result<Ready>> {
+        Poll::Ready(Ok(Ready::READABLE))
+    }
+    fn poll_write_ready(&self, _: &mut Context<'_>) -> Poll<io::Result<Ready>> {
+        Poll::Ready(Ok(Ready::WRITABLE))
+    }
+}
+
+struct CountIo {
+    inner: DuplexStream,
+    written: Rc<Cell<u64>>,
+}
+impl AsyncRead for CountIo {
+    fn poll_read(
+        self: Pin<&mut Self>,
+        cx: &mut Context<'_>,
+        buf: &mut ReadBuf<'_>,
+    ) -> Poll<io::Result<()>> {
+        Pin::new(&mut self.get_mut().inner).poll_read(cx, buf)
+    }
+}
+impl AsyncWrite for CountIo {
+    fn poll_write(
+        self: Pin<&mut Self>,
+        cx: &mut Context<'_>,
+        buf: &[u8],
+    ) -> Poll<io::Result<usize>> {
+        let this = self.get_mut();
+        let r = Pin::new(&mut this.inner).poll_write(cx, buf);
+        if let Poll::Ready(Ok(n)) = &r {
+            this.written.set(this.written.get() + *n as u64);
+        }
+        r
+    }
+    fn poll_flush(self: Pin<&mut Self>, cx: &mut Context<'_>) -> Poll<io::Result<()>> {
+        Pin::new(&mut self.get_mut().inner).poll_flush(cx)
+    }
+    fn poll_shutdown(self: Pin<&mut Self>, cx: &mut Context<'_>) -> Poll<io::Result<()>> {
+        Pin::new(&mut self.get_mut().inner).poll_shutdown(cx)
+    }
+}
+
+trait Rw: AsyncRead + AsyncWrite + Unpin {}
+impl<T: AsyncRead + AsyncWrite + Unpin> Rw for T {}
+
+// ------------------------------------------------------------------------------------------
+// TLS material (one self-signed certificate for "localhost", shared by all runs)
+// ------------------------------------------------------------------------------------------
+/// key material shared by all runs
+struct TlsMaterial {
+    cert_der: CertificateDer<'static>,
+    key_der: Vec<u8>,
+    ossl_acceptor: SslAcceptor,
+    ossl_connector: SslConnector,
+}
+
+/// what one run uses: rustls configurations are built per run, so that session caches (and with
+/// them the choice between full and resumed handshakes) depend on that run's history only
+struct TlsCtx {
+    rustls_server: ServerConfig,
+    rustls_client: Arc<ClientConfig>,
+    ossl_acceptor: SslAcceptor,
+    ossl_connector: SslConnector,
+}
+
+fn tls_material() -> TlsMaterial {
+    let _ = tokio_rustls_026::rustls::crypto::aws_lc_rs::default_provider().install_default();
+    let rcgen::CertifiedKey { cert, key_pair } =
+        rcgen::generate_simple_self_signed(vec!["localhost".to_owned()]).expect("rcgen");
+    let x509 = X509::from_pem(cert.pem().as_bytes()).expect("x509");
+    let pkey = PKey::private_key_from_pem(key_pair.serialize_pem().as_bytes()).expect("pkey");
+    let mut ab = SslAcceptor::mozilla_intermediate_v5(SslMethod::tls()).expect("ssl acceptor");
+    ab.set_private_key(&pkey).unwrap();
+    ab.set_certificate(&x509).unwrap();
+    ab.check_private_key().unwrap();
+    let mut cb = SslConnector::builder(SslMethod::tls()).expect("ssl connector");
+    cb.cert_store_mut().add_cert(x509).unwrap();
+    TlsMaterial {
+        cert_der: cert.der().clone(),
+        key_der: key_pair.serialize_der(),
+        ossl_acceptor: ab.build(),
+        ossl_connector: cb.build(),
+    }
+}
+
+fn tls_ctx(m: &TlsMaterial) -> TlsCtx {
+    let key_der = PrivateKeyDer::Pkcs8(PrivatePkcs8KeyDer::from(m.key_der.clone()));
+    let rustls_server = ServerConfig::builder()
+        .with_no_client_auth()
+        .with_single_cert(vec![m.cert_der.clone()], key_der)
+        .expect("rustls server config");
+    let mut roots = RootCertStore::empty();
+    roots.add(m.cert_der.clone()).expect("root");
+    let rustls_client = Arc::new(
+        ClientConfig::builder()
+            .with_root_certificates(roots)
+            .with_no_client_auth(),
+    );
+    TlsCtx {
+        rustls_server,
+        rustls_client,
+        ossl_acceptor: m.ossl_acceptor.clone(),
+        ossl_connector: m.ossl_connector.clone(),
+    }
+}
+
+// ------------------------------------------------------------------------------------------
+// the services under test, behind one face
+// ------------------------------------------------------------------------------------------
+enum Outcome {
+    Ok(Box<dyn Rw>),
+    TlsErr(String),
+    Timeout,
+    Service,
+}
+type CallFut = Pin<Box<dyn Future<Output = Outcome>>>;
+
+enum Svc {
+    Rustls(accept::rustls_0_23::AcceptorService),
+    Openssl(accept::openssl::AcceptorService),
+}
+
+impl Svc {
+    fn build(acc: &str, tls: &TlsCtx, timeout: Duration) -> Svc {
+        match acc {
+            "rustls" => {
+                let mut a = accept::rustls_0_23::Acceptor::new(tls.rustls_server.clone());
+                a.set_handshake_timeout(timeout);
+                let f = <accept::rustls_0_23::Acceptor as ServiceFactory<GatedIo>>::new_service(
+                    &a,
+                    (),
+                );
+                Svc::Rustls(drive(f, 4).expect("new_service").expect("init"))
+            }
+            "openssl" => {
+                let mut a = accept::openssl::Acceptor::new(tls.ossl_acceptor.clone());
+                a.set_handshake_timeout(timeout);
+                let f =
+                    <accept::openssl::Acceptor as ServiceFactory<GatedIo>>::new_service(&a, ());
+                Svc::Openssl(drive(f, 4).expect("new_service").expect("init"))
+            }
+            other => panic!("driver: unknown acceptor {other}"),
+        }
+    }
+
+    fn poll_ready(&self, cx: &mut Context<'_>) -> &'static str {
+        let r = match self {
+            Svc::Rustls(s) => {
+                <accept::rustls_0_23::AcceptorService as Service<GatedIo>>::poll_ready(s, cx)
+                    .map(|r| r.is_ok())
+            }
+            Svc::Openssl(s) => {
+                <accept::openssl::AcceptorService as Service<GatedIo>>::poll_ready(s, cx)
+                    .map(|r| r.is_ok())
+            }
+        };
+        match r {
+            Poll::Ready(true) => "ready",
+            Poll::Ready(false) => "err",
+            Poll::Pending => "pending",
+        }
+    }
+
+    /// `Service::call`; the returned box owns the acceptor's own future (and with it the guard)
+    fn call(&self, io: GatedIo) -> CallFut {
+        match self {
+            Svc::Rustls(s) => {
+                let fut = s.call(io);
+                Box::pin(async move {
+                    match fut.await {
+                        Ok(st) => Outcome::Ok(Box::new(st)),
+                        Err(TlsError::Tls(e)) => Outcome::TlsErr(e.to_string()),
+                        Err(TlsError::Timeout) => Outcome::Timeout,
+                        Err(TlsError::Service(_)) => Outcome::Service,
+                    }
+                })
+            }
+            Svc::Openssl(s) => {
+                let fut = s.call(io);
+                Box::pin(async move {
+                    match fut.await {
+                        Ok(st) => Outcome::Ok(Box::new(st)),
+                        Err(TlsError::Tls(e)) => Outcome::TlsErr(e.to_string()),
+                        Err(TlsError::Timeout) => Outcome::Timeout,
+                        Err(TlsError::Service(_)) => Outcome::Service,
+                    }
+                })
+            }
+        }
+    }
+}
+
+// ------------------------------------------------------------------------------------------
+// scripted clients
+// ------------------------------------------------------------------------------------------
+type ClientFut = Pin<Box<dyn Future<Output = Result<Box<dyn Rw>, String>>>>;
+
+struct Client {
+    fut: Option<ClientFut>,
+    flag: Arc<Flag>,
+    stream: Option<Box<dyn Rw>>,
+    err: Option<String>,
+    raw: Option<CountIo>, // clients that are not TLS clients keep the bare end
+    written: Rc<Cell<u64>>,
+}
+
+fn tls_client(lib: &str, tls: &TlsCtx, io: CountIo) -> ClientFut {
+    match lib {
+        "rustls" => {
+            let conn = tokio_rustls_026::TlsConnector::from(tls.rustls_client.clone());
+            Box::pin(async move {
+                let name = ServerName::try_from("localhost").unwrap();
+                conn.connect(name, io)
+                    .await
+                    .map(|s| Box::new(s) as Box<dyn Rw>)
+                    .map_err(|e| e.to_string())
+            })
+        }
+        _ => {
+            let ssl = tls
+                .ossl_connector
+                .configure()
+                .unwrap()
+                .into_ssl("localhost")
+                .unwrap();
+            let mut s = tokio_openssl::SslStream::new(ssl, io).unwrap();
+            Box::pin(async move {
+                Pin::new(&mut s).connect().await.map_err(|e| e.to_string())?;
+                Ok(Box::new(s) as Box<dyn Rw>)
+            })
+        }
+    }
+}
+
+#[derive(Clone, Copy, PartialEq)]
+enum Fire {
+    Never,
+    Open,
+    Garbage,
+    Eof,
+    DropClient,
+}
+
+struct Call {
+    fut: Option<CallFut>,
+    flag: Arc<Flag>,
+    t0: tokio::time::Instant,
+    gate: Rc<RefCell<Gate>>,
+    client: Client,
+    fire: Fire,
+    fire_at_ms: u64,
+    fired: bool,
+}
+
+const GARBAGE: &[u8] = b"GET / HTTP/1.1\r\nHost: localhost\r\nUser-Agent: not-tls\r\n\r\n";
+const ECHO_SIZES: [usize; 7] = [0, 1, 1000, 16383, 16384, 16385, 65536];
+
+// ------------------------------------------------------------------------------------------
+// one run
+// ------------------------------------------------------------------------------------------
+struct Run<'a> {
+    tls: &'a TlsCtx,
+    svc: Svc,
+    wakers: Wakers,
+    calls: Vec<Call>,
+    rng: Rng,
+    t_ticks: u64,
+    tick_ms: u64,
+    stats: BTreeMap<String, u64>,
+}
+
+fn bump(stats: &mut BTreeMap<String, u64>, k: &str, n: u64) {
+    *stats.entry(k.to_string()).or_insert(0) += n;
+}
+
+impl<'a> Run<'a> {
+    fn settle_clients(&mut self) {
+        loop {
+            let mut any = false;
+            for c in self.calls.iter_mut() {
+                if c.client.fut.is_some() && take_flag(&c.client.flag) {
+                    any = true;
+                    let waker = Waker::from(c.client.flag.clone());
+                    let mut cx = Context::from_waker(&waker);
+                    if let Poll::Ready(r) = c.client.fut.as_mut().unwrap().as_mut().poll(&mut cx) {
+                        c.client.fut = None;
+                        match r {
+                            Ok(s) => c.client.stream = Some(s),
+                            Err(e) => c.client.err = Some(e),
+                        }
+                    }
+                }
+            }
+            if !any {
+                break;
+            }
+        }
+    }
+
+    /// Polls call `i` like an executor would within one instant: again while it keeps being woken
+    /// (the client answers in between).  `None` = still pending.
+    fn poll_call(&mut self, i: usize) -> Result<Option<Outcome>, String> {
+        for _ in 0..64 {
+            let c = &mut self.calls[i];
+            take_flag(&c.flag);
+            let waker = Waker::from(c.flag.clone());
+            let mut cx = Context::from_waker(&waker);
+            let fut = c.fut.as_mut().unwrap();
+            match catch(|| fut.as_mut().poll(&mut cx)) {
+                Err(msg) => return Err(msg),
+                Ok(Poll::Ready(o)) => return Ok(Some(o)),
+                Ok(Poll::Pending) => {}
+            }
+            self.settle_clients();
+            if !self.calls[i].flag.0.load(Ordering::SeqCst) {
+                return Ok(None);
+            }
+        }
+        Ok(None)
+    }
+
+    fn el_ms(&self, i: usize) -> u64 {
+        (tokio::time::Instant::now() - self.calls[i].t0).as_millis() as u64
+    }
+
+    fn step_ready(&mut self, w: usize) -> Value {
+        let before = self.wakers.counts();
+        let waker = self.wakers.waker(w);
+        let mut cx = Context::from_waker(&waker);
+        let res = match catch(|| self.svc.poll_ready(&mut cx)) {
+            Ok(r) => r.to_string(),
+            Err(m) => format!("panic: {m}"),
+        };
+        json!({"ev": "ready", "w": w, "res": res, "woken": self.wakers.woken_since(&before),
+               "unres": self.calls.len()})
+    }
+
+    fn step_call(&mut self, kind: &str, th: u64) -> Value {
+        let before = self.wakers.counts();
+        let (client_end, server_end) = tokio::io::duplex(1 << 20);
+        let gate = Rc::new(RefCell::new(Gate {
+            quota: 0,
+            consumed: 0,
+            inject: vec![],
+            inject_pos: 0,
+            eof: false,
+            waker: None,
+        }));
+        let io = GatedIo {
+            inner: server_end,
+            gate: gate.clone(),
+        };
+        let mut res = String::new();
+        let fut = match catch(|| self.svc.call(io)) {
+            Ok(f) => Some(f),
+            Err(m) => {
+                res = format!("panic: {m}");
+                None
+            }
+        };
+        // ----- the client for this script
+        let lib = if self.rng.below(2) == 0 { "rustls" } else { "openssl" };
+        let tie = th == self.t_ticks;
+        let flavour: &str = match kind {
+            "complete" if th == 0 => "open",
+            "complete" if tie => "hold2",
+            "complete" => ["hold1", "hold2"][self.rng.below(2)],
+            "fail" if th == 0 => ["garbage0", "eof0", "drop0", "garbage1", "eof1"][self.rng.below(5)],
+            "fail" => ["garbage0", "eof0", "drop0", "garbage1", "eof1"][self.rng.below(5)],
+            _ => ["silent", "mute", "hello", "halfhello", "hello+3"][self.rng.below(5)],
+        };
+        let written = Rc::new(Cell::new(0u64));
+        let cio = CountIo {
+            inner: client_end,
+            written: written.clone(),
+        };
+        let mut client = Client {
+            fut: None,
+            flag: new_flag(true),
+            stream: None,
+            err: None,
+            raw: None,
+            written,
+        };
+        if matches!(flavour, "garbage0" | "eof0" | "drop0" | "mute") {
+            client.raw = Some(cio); // not a TLS client: writes nothing by itself
+        } else {
+            client.fut = Some(tls_client(lib, self.tls, cio));
+        }
+        let fire = match flavour {
+            "open" | "hold1" | "hold2" => Fire::Open,
+            "garbage0" | "garbage1" => Fire::Garbage,
+            "eof0" | "eof1" => Fire::Eof,
+            "drop0" => Fire::DropClient,
+            _ => Fire::Never,
+        };
+        self.calls.push(Call {
+            fut,
+            flag: new_flag(true),
+            t0: tokio::time::Instant::now(),
+            gate: gate.clone(),
+            client,
+            fire,
+            fire_at_ms: th * self.tick_ms,
+            fired: false,
+        });
+        self.settle_clients(); // the TLS client writes its first flight
+        let n1 = self.calls.last().unwrap().client.written.get();
+        {
+            let mut g = gate.borrow_mut();
+            g.quota = match flavour {
+                "open" | "drop0" => u64::MAX,
+                "hold2" | "garbage1" | "eof1" | "hello" => n1,
+                "halfhello" => n1 / 2,
+                "hello+3" => n1 + 3,
+                _ => 0,
+            };
+        }
+        if th == 0 {
+            let i = self.calls.len() - 1;
+            self.fire(i);
+        }
+        bump(&mut self.stats, &format!("client:{kind}:{flavour}"), 1);
+        json!({"ev": "call", "c": self.calls.len(), "kind": kind, "th": th, "res": res,
+               "flavour": flavour, "lib": if self.calls.last().unwrap().client.raw.is_some() { "raw" } else { lib },
+               "hello_bytes": n1, "woken": self.wakers.woken_since(&before), "unres": self.calls.len()})
+    }
+
+    fn fire(&mut self, i: usize) {
+        let c = &mut self.calls[i];
+        if c.fired {
+            return;
+        }
+        c.fired = true;
+        let mut g = c.gate.borrow_mut();
+        match c.fire {
+            Fire::Never => {}
+            Fire::Open => g.quota = u64::MAX,
+            Fire::Garbage => {
+                let mut v = GARBAGE.to_vec();
+                v.extend_from_slice(&self.rng.bytes(24));
+                g.inject = v;
+            }
+            Fire::Eof => g.eof = true,
+            Fire::DropClient => {
+                c.client.raw = None; // the peer goes away: the duplex reports EOF
+                c.client.fut = None;
+            }
+        }
+        g.changed();
+    }
+
+    /// the finished or abandoned future of call `i` is dropped (this releases the guard)
+    fn remove_call(&mut self, i: usize) -> Call {
+        let mut c = self.calls.remove(i);
+        let f = c.fut.take();
+        let _ = catch(move || drop(f));
+        c
+    }
+
+    fn finish_call(&mut self, i: usize, o: Outcome, el_ms: u64, out: &mut Vec<Value>, before: &[usize]) {
+        let mut c = self.remove_call(i);
+        let (res, err, server) = match o {
+            Outcome::Ok(s) => ("ok", String::new(), Some(s)),
+            Outcome::TlsErr(e) => ("tlserr", e, None),
+            Outcome::Timeout => ("timeout", String::new(), None),
+            Outcome::Service => ("service", String::new(), None),
+        };
+        bump(&mut self.stats, &format!("res:{res}"), 1);
+        out.push(json!({"ev": "poll", "c": i + 1, "res": res, "el_ms": el_ms, "err": err,
+                        "woken": self.wakers.woken_since(before), "unres": self.calls.len()}));
+        if let Some(mut server) = server {
+            // data-intact clause (differential, not model-decided): bytes both ways, compared here
+            // the client's handshake future finishes now (it may have been waiting for our flight)
+            for _ in 0..8 {
+                if c.client.fut.is_none() {
+                    break;
+                }
+                let waker = Waker::from(c.client.flag.clone());
+                let mut cx = Context::from_waker(&waker);
+                if let Poll::Ready(r) = c.client.fut.as_mut().unwrap().as_mut().poll(&mut cx) {
+                    c.client.fut = None;
+                    match r {
+                        Ok(s) => c.client.stream = Some(s),
+                        Err(e) => c.client.err = Some(e),
+                    }
+                }
+            }
+            let mut sizes = vec![ECHO_SIZES[self.rng.below(ECHO_SIZES.len())], self.rng.below(3000)];
+            if self.rng.below(8) == 0 {
+                sizes = ECHO_SIZES.to_vec();
+            }
+            let (ok, detail, bytes) = match c.client.stream.as_mut() {
+                None => (false, format!("client handshake did not finish: {:?}", c.client.err), 0),
+                Some(cl) => {
+                    let rng = &mut self.rng;
+                    let sz = sizes.clone();
+                    let r = drive(
+                        async move {
+                            let mut total = 0usize;
+                            for n in sz {
+                                let a = rng.bytes(n);
+                                cl.write_all(&a).await.map_err(|e| format!("client write: {e}"))?;
+                                cl.flush().await.map_err(|e| format!("client flush: {e}"))?;
+                                let mut got = vec![0u8; n];
+                                server.read_exact(&mut got).await.map_err(|e| format!("server read: {e}"))?;
+                                if got != a {
+                                    return Err(format!("client->server payload of {n} bytes differs"));
+                                }
+                                let b = rng.bytes(n);
+                                server.write_all(&b).await.map_err(|e| format!("server write: {e}"))?;
+                                server.flush().await.map_err(|e| format!("server flush: {e}"))?;
+                                let mut got = vec![0u8; n];
+                                cl.read_exact(&mut got).await.map_err(|e| format!("client read: {e}"))?;
+                                if got != b {
+                                    return Err(format!("server->client payload of {n} bytes differs"));
+                                }
+                                total += 2 * n;
+                            }
+                            Ok::<usize, String>(total)
+                        },
+                        64,
+                    );
+                    match r {
+                        Ok(Ok(t)) => (true, String::new(), t),
+                        Ok(Err(e)) => (false, e, 0),
+                        Err(e) => (false, e, 0),
+                    }
+                }
+            };
+            bump(&mut self.stats, if ok { "echo_ok" } else { "echo_failed" }, 1);
+            bump(&mut self.stats, "echo_bytes", bytes as u64);
+            for s in &sizes {
+                let k = if ECHO_SIZES.contains(s) { format!("echo_size:{s}") } else { "echo_size:random<3000".to_string() };
+                bump(&mut self.stats, &k, 1);
+            }
+            out.push(json!({"ev": "echo", "c": i + 1, "ok": ok, "detail": detail, "sizes": sizes,
+                            "bytes": bytes, "unres": self.calls.len()}));
+        }
+    }
+
+    fn step_poll(&mut self, c: usize, out: &mut Vec<Value>) {
+        let before = self.wakers.counts();
+        if c == 0 || c > self.calls.len() {
+            out.push(json!({"ev": "poll", "c": c, "res": "gone", "el_ms": 0, "err": "", "woken": [], "unres": self.calls.len()}));
+            return;
+        }
+        let i = c - 1;
+        let el_ms = self.el_ms(i);
+        match self.poll_call(i) {
+            Ok(Some(o)) => self.finish_call(i, o, el_ms, out, &before),
+            Ok(None) => out.push(json!({"ev": "poll", "c": c, "res": "pending", "el_ms": el_ms, "err": "",
+                                        "woken": self.wakers.woken_since(&before), "unres": self.calls.len()})),
+            Err(m) => {
+                self.remove_call(i);
+                out.push(json!({"ev": "poll", "c": c, "res": format!("panic: {m}"), "el_ms": el_ms, "err": "",
+                                "woken": self.wakers.woken_since(&before), "unres": self.calls.len()}));
+            }
+        }
+    }
+
+    fn step_drop(&mut self, c: usize) -> Value {
+        let before = self.wakers.counts();
+        if c == 0 || c > self.calls.len() {
+            return json!({"ev": "drop", "c": c, "res": "gone", "woken": [], "unres": self.calls.len()});
+        }
+        self.remove_call(c - 1);
+        json!({"ev": "drop", "c": c, "res": "", "woken": self.wakers.woken_since(&before), "unres": self.calls.len()})
+    }
+
+    /// polls every unresolved call; those that resolve although the schedule let time pass are `early`
+    fn sweep(&mut self, early: &mut Vec<Value>) {
+        let mut i = 0;
+        while i < self.calls.len() {
+            let el_ms = self.el_ms(i);
+            match self.poll_call(i) {
+                Ok(None) => i += 1,
+                Ok(Some(o)) => {
+                    let res = match o {
+                        Outcome::Ok(_) => "ok",
+                        Outcome::TlsErr(_) => "tlserr",
+                        Outcome::Timeout => "timeout",
+                        Outcome::Service => "service",
+                    };
+                    early.push(json!({"c": i + 1, "res": res, "el_ms": el_ms}));
+                    self.remove_call(i);
+                }
+                Err(m) => {
+                    early.push(json!({"c": i + 1, "res": format!("panic: {m}"), "el_ms": el_ms}));
+                    self.remove_call(i);
+                }
+            }
+        }
+    }
+
+    /// one tick of virtual time.  Before the clock moves, and again 1 ms before the tick ends, every
+    /// unresolved call is polled (an executor would have done so): none may be Ready.
+    async fn step_advance(&mut self) -> Value {
+        let before = self.wakers.counts();
+        let start = tokio::time::Instant::now();
+        let mut early = vec![];
+        self.sweep(&mut early);
+        tokio::time::advance(Duration::from_millis(self.tick_ms - 1)).await;
+        self.sweep(&mut early);
+        tokio::time::advance(Duration::from_millis(1)).await;
+        let now = tokio::time::Instant::now();
+        for i in 0..self.calls.len() {
+            let due = self.calls[i].t0 + Duration::from_millis(self.calls[i].fire_at_ms);
+            if !self.calls[i].fired && now >= due {
+                self.fire(i);
+            }
+        }
+        self.settle_clients();
+        json!({"ev": "advance", "early": early, "moved_ms": (now - start).as_millis() as u64,
+               "woken": self.wakers.woken_since(&before), "unres": self.calls.len()})
+    }
+}
+
+/// required wake-up (if any) observed, results equal to the spec's
+fn matches(exp: &Value, obs: &Value, tick_ms: u64) -> bool {
+    let need = exp.get("woken").and_then(|x| x.as_i64()).unwrap_or(0);
+    let woken_ok = need == 0
+        || obs["woken"]
+            .as_array()
+            .map(|a| a.iter().any(|w| w.as_i64() == Some(need)))
+            .unwrap_or(false);
+    let unres_ok = exp.get("unres") == obs.get("unres");
+    match gets(exp, "op") {
+        "ready" => exp["res"] == obs["res"] && unres_ok,
+        "call" => unres_ok && obs["res"] == "",
+        "poll" => {
+            exp["res"] == obs["res"]
+                && obs["el_ms"].as_u64() == Some(geti(exp, "el") as u64 * tick_ms)
+                && unres_ok
+                && woken_ok
+        }
+        "drop" => unres_ok && woken_ok && obs["res"] == "",
+        "advance" => unres_ok && obs["early"].as_array().map(|a| a.is_empty()).unwrap_or(false),
+        _ => false,
+    }
+}
+
+struct RunOut {
+    recs: Vec<Value>,
+    mismatch: Option<Value>,
+    steps: usize,
+    stats: BTreeMap<String, u64>,
+}
+
+/// `sched`: {"acc","limit","T","tick_ms","seed","ops":[..]}  or, with "random": n, n random steps
+fn run_one(mat: &TlsMaterial, run: usize, sched: &Value) -> RunOut {
+    let tls = &tls_ctx(mat);
+    let acc = gets(sched, "acc").to_string();
+    let limit = geti(sched, "limit") as usize;
+    let t_ticks = geti(sched, "T") as u64;
+    let tick_ms = geti(sched, "tick_ms") as u64;
+    let seed = geti(sched, "seed") as u64;
+    let random = sched.get("random").and_then(|x| x.as_u64()).unwrap_or(0);
+    let maxcalls = sched.get("maxcalls").and_then(|x| x.as_u64()).unwrap_or(5) as usize;
+
+    // thread-local counter: capacity = MAX_CONN at first use on this (fresh) thread
+    accept::max_concurrent_tls_connect(limit);
+    let rt = tokio::runtime::Builder::new_current_thread()
+        .enable_time()
+        .start_paused(true)
+        .build()
+        .expect("runtime");
+    // all futures are polled by hand inside this one task: Tokio's cooperative budget must not make
+    // the in-memory transports answer Pending
+    rt.block_on(tokio::task::unconstrained(async {
+        let timeout = Duration::from_millis(t_ticks * tick_ms);
+        let mut r = Run {
+            tls,
+            svc: Svc::build(&acc, tls, timeout),
+            wakers: Wakers::new(2),
+            calls: vec![],
+            rng: Rng::new(seed),
+            t_ticks,
+            tick_ms,
+            stats: BTreeMap::new(),
+        };
+        let mut recs = vec![json!({"ev": "reset", "run": run, "acc": acc, "limit": limit, "T": t_ticks,
+                                   "tick_ms": tick_ms, "timeout_ms": t_ticks * tick_ms, "seed": seed})];
+        let mut mismatch = None;
+        let mut steps = 0usize;
+        if random == 0 {
+            for (k, exp) in sched["ops"].as_array().unwrap().iter().enumerate() {
+                let mut out = vec![];
+                match gets(exp, "op") {
+                    "ready" => out.push(r.step_ready(geti(exp, "w") as usize)),
+                    "call" => out.push(r.step_call(gets(exp, "kind"), geti(exp, "th") as u64)),
+                    "poll" => r.step_poll(geti(exp, "c") as usize, &mut out),
+                    "drop" => out.push(r.step_drop(geti(exp, "c") as usize)),
+                    "advance" => out.push(r.step_advance().await),
+                    other => panic!("driver: unknown op {other}"),
+                }
+                steps += 1;
+                let echo_bad = out.iter().any(|o| o["ev"] == "echo" && o["ok"] != true);
+                if mismatch.is_none() && exp.get("res").is_some() && (!matches(exp, &out[0], tick_ms) || echo_bad) {
+                    mismatch = Some(json!({"run": run, "step": k, "expected": exp,
+                                           "observed": if echo_bad { out[out.len() - 1].clone() } else { out[0].clone() }}));
+                }
+                recs.extend(out);
+            }
+        } else {
+            let mut rng = Rng::new(seed ^ 0xABCDEF);
+            for _ in 0..random {
+                let mut out = vec![];
+                let n = r.calls.len();
+                match rng.below(20) {
+                    0..=4 => out.push(r.step_ready(1 + rng.below(2))),
+                    5..=9 if n < maxcalls => {
+                        let kind = ["complete", "complete", "fail", "stall"][rng.below(4)];
+                        let th = if kind == "stall" { 0 } else { rng.below(t_ticks as usize + 2) as u64 };
+                        out.push(r.step_call(kind, th));
+                    }
+                    10..=12 if n > 0 => r.step_poll(1 + rng.below(n), &mut out),
+                    13 if n > 0 => out.push(r.step_drop(1 + rng.below(n))),
+                    14..=19 if n > 0 => {
+                        // an executor polls what is due before time moves on
+                        let mut c = 1;
+                        while c <= r.calls.len() {
+                            let len = r.calls.len();
+                            r.step_poll(c, &mut out);
+                            if r.calls.len() == len {
+                                c += 1;
+                            }
+                        }
+                        if !r.calls.is_empty() {
+                            out.push(r.step_advance().await);
+                        }
+                    }
+                    _ => {}
+                }
+                steps += out.iter().filter(|o| o["ev"] != "echo").count();
+                recs.extend(out);
+            }
+        }
+        // abandon what is left (releases the guards before the thread ends)
+        while !r.calls.is_empty() {
+            r.remove_call(0);
+        }
+        RunOut {
+            recs,
+            mismatch,
+            steps,
+            stats: r.stats,
+        }
+    }))
+}
+
+fn main() {
+    quiet_panics();
+    let mode = std::env::args().nth(1).expect("mode");
+    assert_eq!(mode, "accept", "unknown mode");
+    let trace_path = arg("--trace").expect("--trace");
+    let mut trace = Trace::create(&trace_path);
+    let tls = Arc::new(tls_material());
+
+    let mut jobs: Vec<Value> = vec![];
+    if let Some(n) = arg("--random") {
+        let n: usize = n.parse().unwrap();
+        let seed: u64 = arg("--seed").unwrap().parse().unwrap();
+        let len: u64 = arg("--len").map(|x| x.parse().unwrap()).unwrap_or(40);
+        let accs: Vec<&str> = match arg("--acc").as_deref() {
+            Some("rustls") => vec!["rustls"],
+            Some("openssl") => vec!["openssl"],
+            _ => vec!["rustls", "openssl"],
+        };
+        let mut rng = Rng::new(seed ^ 0x5151);
+        for k in 0..n {
+            let t = 2 + rng.below(4) as u64; // 2..5 ticks
+            let timeout_ms = [100u64, 1500, 5000][rng.below(3)];
+            let tick_ms = (timeout_ms + t - 1) / t.max(1);
+            let tick_ms = if tick_ms * t > 5000 { 5000 / t } else { tick_ms };
+            jobs.push(json!({"acc": accs[k % accs.len()], "limit": 1 + rng.below(3), "T": t, "tick_ms": tick_ms,
+                             "seed": rng.next() >> 16, "random": len, "maxcalls": 5}));
+        }
+    }
+    let nrandom = jobs.len();
+    if let Some(p) = arg("--schedules") {
+        jobs.extend(read_ndjson(&p));
+    }
+
+    // Runs with the same limit may run side by side (each still on its own fresh thread): the
+    // process-wide MAX_CONN is then not changed while any of them can read it.
+    let par: usize = arg("--jobs").map(|x| x.parse().unwrap()).unwrap_or(4).max(1);
+    let results: Vec<std::sync::Mutex<Option<RunOut>>> = jobs.iter().map(|_| std::sync::Mutex::new(None)).collect();
+    for limit in 0..=16i64 {
+        let idx: Vec<usize> = (0..jobs.len()).filter(|k| geti(&jobs[*k], "limit") == limit).collect();
+        if idx.is_empty() {
+            continue;
+        }
+        accept::max_concurrent_tls_connect(limit as usize);
+        let next = std::sync::atomic::AtomicUsize::new(0);
+        std::thread::scope(|sc| {
+            for _ in 0..par.min(idx.len()) {
+                sc.spawn(|| loop {
+                    let n = next.fetch_add(1, Ordering::SeqCst);
+                    if n >= idx.len() {
+                        break;
+                    }
+                    let k = idx[n];
+                    // runs are numbered per kind: random runs first, then schedules 0..
+                    let run = if k < nrandom { k } else { k - nrandom };
+                    let tls2 = tls.clone();
+                    let job2 = jobs[k].clone();
+                    let h = std::thread::Builder::new()
+                        .name(format!("run-{k}"))
+                        .spawn(move || run_one(&tls2, run, &job2))
+                        .expect("spawn");
+                    match h.join() {
+                        Ok(out) => *results[k].lock().unwrap() = Some(out),
+                        Err(_) => {
+                            eprintln!("driver: run {k} panicked outside the code under test: {}", jobs[k]);
+                            std::process::exit(3);
+                        }
+                    }
+                });
+            }
+        });
+    }
+    let mut mismatches: Vec<Value> = vec![];
+    let mut steps = 0usize;
+    let mut stats: BTreeMap<String, u64> = BTreeMap::new();
+    for (k, job) in jobs.iter().enumerate() {
+        let out = results[k].lock().unwrap().take().expect("driver: a run has a limit outside 0..16");
+        for r in &out.recs {
+            trace.emit(r);
+        }
+        steps += out.steps;
+        if let Some(m) = out.mismatch {
+            mismatches.push(m);
+        }
+        bump(&mut stats, &format!("runs:{}", gets(job, "acc")), 1);
+        for (s, n) in out.stats {
+            bump(&mut stats, &s, n);
+        }
+    }
+    trace.finish();
+    println!(
+        "{}",
+        json!({"runs": jobs.len(), "steps": steps, "mismatches": mismatches.len(),
+               "first_mismatches": mismatches.iter().take(20).collect::<Vec<_>>(), "stats": stats})
+    );
+}
